@@ -108,6 +108,9 @@ def run (c : Case) : String :=
         let prompt := match op, p with
           | "RetryWithConfig", [_, 2, _] => " prompt=1"
           | _, _ => ""
-        s!"res {c.id} trace={renderTrace (deliver cut r.raw)} log={renderLog r.log} attempts={r.attempts} live={maxLive r.log} evals={r.evals}{prompt}"
+        -- decoy=1: the operator value was applied to a second upstream afterwards; a pipeline is a function of its own source
+        -- (C12 reapply theorems), so that upstream is never subscribed and nothing else changes
+        let decoy := if c.getD "decoy" "-" == "1" then " decoy=0" else ""
+        s!"res {c.id} trace={renderTrace (deliver cut r.raw)} log={renderLog r.log} attempts={r.attempts} live={maxLive r.log} evals={r.evals}{prompt}{decoy}"
 
 end Ro.Driver.Drivers.Resub
